@@ -12,8 +12,11 @@ def run(chk, repo, tier):
                        'left one, so that every local step acts at the orthogonality centre (canonical-form intervals); every local step '
                        'receives the environments, the current MPO tensors and the state tensors of its own sites, never stale '
                        '(the wiring rules of C08.R4: exactness on a complete manifold needs each sub-step to be the exact local flow)')
+    chk.rule('C09.R4', 'every site receives forward steps whose fractions sum to one time step and every bond / interior site '
+                       'backward steps summing to minus one, for every number of sites including L = 1 and L = 2 (on a '
+                       'complete manifold the sub-steps compose to exp(-dt H) only if each position is evolved by exactly dt)')
     for q in INTEGRATORS:
-        sr.schedule_rules(chk, repo, q, rid_pal='C09.R1')
+        sr.schedule_rules(chk, repo, q, rid_pal='C09.R1', rid_budget='C09.R4')
         sr.emit(chk, repo, q, {'canonical': 'C09.R2', 'loop-invariant': 'C09.R2', 'loop-entry': 'C09.R2', 'slot': 'C09.R2',
                                'stale': 'C09.R2', 'outer-fixpoint': 'C09.R2'})
     chk.floor('C09.R1', 4, 4)
